@@ -368,9 +368,10 @@ funcalloc(struct func *f, struct decl *d)
 
 	assert(!d->type->incomplete);
 	calcvla(f, d->type);
-	end = f->end;
+	end = NULL;
 	if (d->type->size || !(d->type->prop & PROPVM)) {
-		/* constant size, possibly zero (GNU zero-length array) */
+		/* constant size, possibly zero (GNU zero-length array): allocate in the start block */
+		end = f->end;
 		f->end = f->start;
 		v = mkintconst(d->type->size);
 	} else {
@@ -394,7 +395,9 @@ funcalloc(struct func *f, struct decl *d)
 		v = funcinst(f, IAND, ptrclass, v, mkintconst(-align));
 	}
 	d->value = v;
-	f->end = end;
+	/* a variable-length array is allocated in place; the instructions may have opened a new block */
+	if (end)
+		f->end = end;
 }
 
 static struct value *
